@@ -65,9 +65,10 @@ def run(tier, runner):
     r_lc.require(6, 'lookup members of FlatSet (find, contains, count, equal_range, lower_bound, upper_bound)')
     r_mc = round6.mutate_case(progs)
     r_mc.require(4, 'insert(value) x2, emplace, erase(key) of FlatSet')
+    r_ck = round6.cmp_keep(progs)
     return {
-        'results': [r_cmp, r_ci, r_inv, r_stable, r_node, r_nm, r_np, r_search, r_mo, r_eq, r_lc, r_mc] + r_w,
-        'explanation': 'MUTATE-CASE: insert(value) / emplace / erase(key), evaluated in the same three cases, insert exactly an absent key at its lower bound and return (new element, true), leave a present key alone and return (its position, false), erase exactly the equivalent element and return 1 or 0.  LOOKUP-CASE: find / contains / count / equal_range / lower_bound / upper_bound are evaluated for each of the three cases of the key (nothing at or after it; absent with a successor; present) with std::lower_bound / upper_bound given their specified result and comparator calls decided by the case - each returns what std::set returns (an empty range for an absent key, the equivalent element or end()).  EQ-ELEM: operator== never consults the ordering comparator.  NODE-POS: insert(node) reports the position of the insertion it performed on every path, refused or not.  C03 as stated (same elements / results as std::set over histories) is not decided.  Decided structural clauses: CMP-INIT - a comparator (or set) given to a constructor is the one stored, swap exchanges comparator and elements together; CMP-OBJ - every '
+        'results': [r_cmp, r_ci, r_inv, r_stable, r_node, r_nm, r_np, r_search, r_mo, r_eq, r_lc, r_mc, r_ck] + r_w,
+        'explanation': 'CMP-KEEP: no member function builds a set of its own class with a defaulted comparator argument (expected count zero on this tree; the self-test keeps a positive example).  MUTATE-CASE: insert(value) / emplace / erase(key), evaluated in the same three cases, insert exactly an absent key at its lower bound and return (new element, true), leave a present key alone and return (its position, false), erase exactly the equivalent element and return 1 or 0.  LOOKUP-CASE: find / contains / count / equal_range / lower_bound / upper_bound are evaluated for each of the three cases of the key (nothing at or after it; absent with a successor; present) with std::lower_bound / upper_bound given their specified result and comparator calls decided by the case - each returns what std::set returns (an empty range for an absent key, the equivalent element or end()).  EQ-ELEM: operator== never consults the ordering comparator.  NODE-POS: insert(node) reports the position of the insertion it performed on every path, refused or not.  C03 as stated (same elements / results as std::set over histories) is not decided.  Decided structural clauses: CMP-INIT - a comparator (or set) given to a constructor is the one stored, swap exchanges comparator and elements together; CMP-OBJ - every '
                        'ordering or equivalence decision uses the stored comparator object (no default-constructed temporary); SORT-INV - every bulk '
                        'writer fed with caller data re-establishes sorted+unique (stable sort, merge when appending, duplicate removal) before returning; '
                        'STABLE - the first inserted of equivalent elements survives; NODE / NODE-MOVE - insert(node) empties the node only if the insertion happened, and its value is moved from only where the insertion happens (never into a temporary built before the lookup); '
